@@ -90,7 +90,11 @@ def gen(rng, tier):
       key = ('/'.join(sc), full, param)
       k = rng.random()
       uid[0] += 1
-      if k < 0.55 or spec['name'].startswith('prod'):
+      if k < 0.08:
+        # plain scalars that compare (and hash) equal to the enum member used
+        # as a non-literal value elsewhere
+        val = {'lit': rng.choice([1, 1.0, True, 2])}
+      elif k < 0.55 or spec['name'].startswith('prod'):
         val = {'lit': c01._bound_value(rng, uid)}  # pylint: disable=protected-access
       elif k < 0.72:
         val = {'ref': [rng.choice(['', 'a', 'b/ab']), 'prod%d' %
@@ -147,7 +151,9 @@ class _Mode(__import__('enum').IntEnum):
 
 def _special_object(tag):
   """Values without a literal form (the tag's number picks the kind)."""
-  n = int(tag[1:]) % 4
+  n = int(tag[1:]) % 5
+  if n == 4:
+    return _Mode.SLOW
   if n == 0:
     return probes.Tok(0, tag)
   if n == 1:
